@@ -326,6 +326,8 @@ package generator
 //@   shape t.Properties = propmap(name)
 //@   shape prop.Default = nil | anystring
 //@   shape prop.GoJSONSchemaExtension = nil | new
+//@   shape prop.AdditionalProperties = nil | new
+//@   shape prop.AdditionalProperties.Type = strs() | strs(string) | strs(object)
 //@   shape prop.GoJSONSchemaExtension.Identifier = nil | new
 //@   shape uniqueNames = symmap()
 //@   shape requiredNames = strmap(name:true) | strmap(name:false) | strmap()
